@@ -224,7 +224,7 @@ pub fn run(run: &Run) {
     for k in 2..=6 {
         combinations(LATTICE.len(), k, |c| sets.push(c.iter().map(|&i| LATTICE[i]).collect()));
     }
-    run.bound("knot sets", format!("{} subsets of an 8-point lattice; grids of length 2..={}", sets.len(), run.tier.pick(200, 400)));
+    run.bound("knot sets", format!("{} subsets of an 8-point lattice; grids of length 2..={}", sets.len(), run.tier.pick(200, 1200)));
     sets.par_iter().for_each(|x| {
         let n = x.len();
         if n <= 4 {
@@ -242,7 +242,7 @@ pub fn run(run: &Run) {
     });
     run.sample(|| format!("x={:?} y=[-2,5,0] targets={:?} × 3 modes × checked/unchecked", &sets[30], targets(&sets[30])));
     // grids of every length
-    let maxlen = run.tier.pick(200usize, 400usize);
+    let maxlen = run.tier.pick(200usize, 1200usize);
     (2..=maxlen).into_par_iter().for_each(|n| {
         let reg: Vec<f64> = (0..n).map(|i| -2.0 + 0.25 * i as f64).collect();
         let y: Vec<f64> = (0..n).map(|i| ((i * i) % 7) as f64 - 3.0 + 0.5 * (i % 2) as f64).collect();
